@@ -82,7 +82,8 @@ struct ctl_server
     // server is waiting for the next one; `kick` = close that connection now (the harness sets it when the client is blocked
     // reading a reply the script will never send: the model's control stream ends there, the real server hangs up there)
     std::atomic<bool> idle{false}, kick{false};
-    std::atomic<int> open_conns{0};       // control connections accepted and not yet closed by the server
+    std::atomic<int> open_conns{0};
+    std::atomic<int> cur_fd{-1};          // descriptor of the control connection being served (-1: none)       // control connections accepted and not yet closed by the server
     ~ctl_server() { shutdown(); }
 
     void start(bool ipv6, int ver, bool reqreuse)
@@ -177,6 +178,7 @@ struct ctl_server
             if (g.close_after) return false;
             return true;
         };
+        cur_fd = fd;
         bool alive = play("<connect>");
         kick = false;
         while (alive && !stop)
@@ -211,6 +213,7 @@ struct ctl_server
             }
         }
         idle = false;
+        cur_fd = -1;
         if (ssl) SSL_free(ssl);
         ::close(fd);
     }
